@@ -306,11 +306,27 @@ fn intercepted_htlc_is_failed_back(htlc: &PendingAddHTLCInfo, height: u32) -> (k
     ensures
     kept <==> height as int + HTLC_FAIL_BACK_BUFFER < htlc.forward_info.outgoing_cltv_value,
  {
-        if height >= htlc.forward_info.outgoing_cltv_value - LATENCY_GRACE_PERIOD_BLOCKS { false } else { true }
+        if height >= htlc.forward_info.outgoing_cltv_value - HTLC_FAIL_BACK_BUFFER { false } else { true }
     }
 
 proof fn vac__intercepted_htlc_is_failed_back(htlc: &PendingAddHTLCInfo, height: u32) 
     requires htlc.forward_info.outgoing_cltv_value >= HTLC_FAIL_BACK_BUFFER, height <= 0x7fff_ffff,
+    ensures false
+{}
+// ---- when an HTLC still waiting in the holding cell is given up (deep R15 slice of FundedChannel::do_best_block_updated) ----
+fn holding_cell_add_is_kept(cltv_expiry: &u32, height: u32) -> (kept: bool)
+    requires
+    height <= 0x7fff_ffff,
+
+    ensures
+    kept <==> *cltv_expiry as int > height + LATENCY_GRACE_PERIOD_BLOCKS,
+ {
+        let unforwarded_htlc_cltv_limit = height + LATENCY_GRACE_PERIOD_BLOCKS;
+        if *cltv_expiry <= unforwarded_htlc_cltv_limit { false } else { true }
+    }
+
+proof fn vac__holding_cell_add_is_kept(cltv_expiry: &u32, height: u32) 
+    requires height <= 0x7fff_ffff,
     ensures false
 {}
 // (P, C08) with the heights above, the forwarding race of lemma_forward_race is the one the monitor really runs:
